@@ -13,7 +13,8 @@ int main(void) {
   int EXTRA = 100000, idx = size_index("nnames_map");
   char* buf2 = calloc(1, sz + 4*(size_t)EXTRA);
   memcpy(buf2, buf, sz);
-  ((mjtSize*)(buf2 + 5*sizeof(int)))[idx] += EXTRA;
+  mjtSize v; memcpy(&v, buf2 + 5*sizeof(int) + sizeof(mjtSize)*idx, sizeof(v)); v += EXTRA;
+  memcpy(buf2 + 5*sizeof(int) + sizeof(mjtSize)*idx, &v, sizeof(v));
   for (int i=0; i<EXTRA; i++) ((int*)(buf2+sz))[i] = 0x41414141;
   mjModel* m3 = mj_loadModelBuffer(buf2, (int)(sz + 4*EXTRA));    // ASan reports the overrun here on the unrepaired tree
   printf("corrupt nnames_map: %s\n", m3 ? "LOADED" : "rejected");
